@@ -551,7 +551,11 @@ where
             "tag" => build(a, env)?.map_err(|e: E| e.retag("me")).boxed(),
             f => return Err(format!("unknown map_err function {f}")),
         },
-        G::Memo(a) => build(a, env)?.memoized().boxed(),
+        // directly nested: no box in between, as a user writing p.memoized().memoized() gets it
+        G::Memo(a) => match &**a {
+            G::Memo(inner) => build(inner, env)?.memoized().memoized().boxed(),
+            _ => build(a, env)?.memoized().boxed(),
+        },
         G::Rec(body) => {
             let mut err = None;
             let p = recursive(|r| {
